@@ -629,7 +629,7 @@ def r_last_mut_set(w):
     return n
 
 
-def r_for_tuple_vec(w, kw_start, invariants, idx="__k"):
+def r_for_tuple_vec(w, kw_start, invariants, idx="__k", ensures=None, except_break=None):
     """`for (a, b) in V { B }` over a Vec of Copy tuples -> index while loop (`continue`/`break` keep their meaning)."""
     ls = [l for l in w.loops() if l[1] == kw_start]
     kw, s, e = ls[0]
@@ -639,7 +639,7 @@ def r_for_tuple_vec(w, kw_start, invariants, idx="__k"):
         raise LostAnchor("for (a, b) in V shape in %s" % w.qual())
     a, b, v = m.groups()
     cb = lexer.match_close(w.body, ob)
-    inv = inv_text(invariants, "%s.len() - %s" % (v, idx))
+    inv = inv_text(invariants, "%s.len() - %s" % (v, idx), ensures, except_break)
     w.replace(s, ob, "{ let mut %s: usize = 0; while %s < %s.len()%s" % (idx, idx, v, inv), "R4", "for (%s, %s) in %s -> index while loop" % (a, b, v))
     w.insert_at(ob + 1, " let (%s, %s) = %s[%s]; %s += 1;" % (a, b, v, idx, idx), "R4", "element binding + increment")
     w.insert_at(cb + 1, " }", "R4", "close scope of loop index")
